@@ -481,6 +481,21 @@ func e2eResetProbe(t *testing.T, viaProxy bool, variant int) []int64 {
 		raw.Deliver(&Rpc{Id: 778, Header: h})
 		synctest.Wait()
 		out = append(out, classify(n1), int64(len(raw.WrittenCopy())-n1))
+		// (c) unary calls of the raw peer whose route record already has hops (as if they had crossed other proxies,
+		// the last of which is the peer itself): the reply must come back to the peer - the server echoes all but the
+		// last hop, the proxy pops the peer's name off the return route
+		for k, rec := range [][]string{{"c9"}, {"x", "c9"}, {"y", "x", "c9"}} {
+			n2 := len(raw.WrittenCopy())
+			h := hdr("/verif.Echo/Unary", "c9", "srv1")
+			h.ProxyRecord = rec
+			raw.Deliver(&Rpc{Id: uint64(800 + k), Header: h, Body: &goatorepo.Body{Data: payloadOf(int64(51 + k))}})
+			synctest.Wait()
+			ws := raw.WrittenCopy()
+			out = append(out, int64(len(ws)-n2))
+			if len(ws) > n2 {
+				out = append(out, tokenOf(ws[len(ws)-1].GetBody().GetData()))
+			}
+		}
 		cancel()
 		srv.Stop()
 		if demux != nil {
@@ -501,5 +516,75 @@ func runProxyResetE2E(t *testing.T, idx, variant int, em *Emitter) {
 	term, n := pairsCoq(exp, got)
 	em.Emit(Rec{Idx: idx, Kind: "proxy-e2e", Desc: map[string]any{"what": "resets through the proxy", "variant": variant, "outcomes": n},
 		Obs: map[string]any{"expected": exp, "observed": got}, Tags: []string{"e2e-proxy", "e2e-resets"}, Coq: "CProxyE2E " + term})
+	em.Marker("end", idx)
+}
+
+// ---------------------------------------------------------------- the server's reply rule (tie of Model/Proxy.v reply_of)
+
+// runServerReplyTie drives the REAL goat.Server (Serve on a scripted Endpoint) with requests whose route record has
+// 0..4 hops - as they reach a server behind that many proxies, or crafted - and records the return route, source and
+// destination of what the server answers: the reply of a unary call, the error reply for undecodable request metadata,
+// the RST_STREAM for a message of an unknown stream and for a stream start with undecodable metadata. Check/C16c.v
+// compares each with reply_of.
+func runServerReplyTie(t *testing.T, idx int, em *Emitter) {
+	em.Marker("begin", idx)
+	var items []string
+	var obs []map[string]any
+	records := [][]int64{nil, {99}, {8, 99}, {8, 7, 99}, {99, 8, 7, 6}, {6, 6}, {99, 99, 99}}
+	kinds := []string{"unary", "unary-badmeta", "stream-body", "stream-badmeta"}
+	bubble(t, func(t *testing.T) {
+		for bi, byRef := range []bool{false, true} {
+			ctx, cancel := context.WithCancel(context.Background())
+			ep := NewEndpoint("srv")
+			ep.ByRef = byRef
+			srv := newEchoServer(pxName(2), e2eEcho())
+			go srv.Serve(ctx, ep)
+			synctest.Wait()
+			id := uint64(100 * (bi + 1))
+			for _, rec := range records {
+				for _, kind := range kinds {
+					id++
+					h := hdr("/verif.Echo/Unary", pxName(1), pxName(2))
+					for _, x := range rec {
+						h.ProxyRecord = append(h.ProxyRecord, pxName(x))
+					}
+					rpc := &Rpc{Id: id, Header: h}
+					switch kind {
+					case "unary":
+						rpc.Body = &goatorepo.Body{Data: payloadOf(int64(id))}
+					case "unary-badmeta":
+						h.Headers = []*goatorepo.KeyValue{{Key: "x-bin", Value: "!!!"}}
+						rpc.Body = &goatorepo.Body{Data: payloadOf(int64(id))}
+					case "stream-body":
+						h.Method = "/verif.Echo/Bidi"
+						rpc.Body = &goatorepo.Body{Data: payloadOf(int64(id))}
+					case "stream-badmeta":
+						h.Method = "/verif.Echo/CStream"
+						h.Headers = []*goatorepo.KeyValue{{Key: "x-bin", Value: "!!!"}}
+					}
+					n0 := len(ep.WrittenCopy())
+					ep.Deliver(rpc)
+					synctest.Wait()
+					ws := ep.WrittenCopy()
+					next, rsrc, rdst := "None", int64(-9), int64(-9) // no reply: never equal to the model's
+					if len(ws) > n0 && ws[n0].GetHeader() != nil {
+						rh := ws[n0].GetHeader()
+						rsrc, rdst = pxTok(rh.Source), pxTok(rh.Destination)
+						if rh.ProxyNext != nil {
+							next = "(Some " + zList(tokList(rh.ProxyNext)) + ")"
+						}
+					}
+					items = append(items, fmt.Sprintf("(%s, (1, 2), (%s, (%s, %s)))", zList(rec), next, coqZ(rsrc), coqZ(rdst)))
+					obs = append(obs, map[string]any{"record": rec, "kind": kind, "byref": byRef, "next": next, "replies": len(ws) - n0})
+				}
+			}
+			cancel()
+			srv.Stop()
+			ep.FailRead(io.EOF)
+			synctest.Wait()
+		}
+	})
+	em.Emit(Rec{Idx: idx, Kind: "server-reply", Desc: map[string]any{"records": records, "kinds": kinds}, Obs: obs,
+		Tags: []string{"server-reply-tie"}, Coq: "CProxyReply " + coqList(items)})
 	em.Marker("end", idx)
 }
